@@ -2305,7 +2305,60 @@ func (x *TX) counterName(phi *ssa.Phi) (string, bool) {
 	if !ok || step != 1 || start < 0 {
 		return "", false
 	}
+	if x.counterEscapes(phi) {
+		// used after (outside) its own loop: there it is a frozen final value, not the running
+		// index — and would print like the live counter of a later loop at the same depth
+		return fmt.Sprintf("#stale@%s", x.p.instrPos(phi)), true
+	}
 	return fmt.Sprintf("#%c%d", 'i'+rune(x.loopDepth(phi.Block())), start), true
+}
+
+// counterEscapes: is the counter (or a value computed from it) used outside the natural loop
+// of its header?
+func (x *TX) counterEscapes(phi *ssa.Phi) bool {
+	h := phi.Block()
+	inLoop := func(b *ssa.BasicBlock) bool {
+		return b == h || (h.Dominates(b) && x.fi.reach[b.Index][h.Index])
+	}
+	seen := map[ssa.Value]bool{}
+	var walk func(v ssa.Value, depth int) bool
+	walk = func(v ssa.Value, depth int) bool {
+		if seen[v] || depth > 3 {
+			return false
+		}
+		seen[v] = true
+		refs := v.Referrers()
+		if refs == nil {
+			return false
+		}
+		for _, r := range *refs {
+			if r.Parent() != x.fn {
+				continue
+			}
+			if !inLoop(r.Block()) {
+				if _, isDbg := r.(*ssa.DebugRef); isDbg {
+					continue
+				}
+				return true
+			}
+			switch rv := r.(type) {
+			case *ssa.BinOp:
+				if walk(rv, depth+1) {
+					return true
+				}
+			case *ssa.Convert:
+				if walk(rv, depth+1) {
+					return true
+				}
+			case *ssa.Phi:
+				if rv != phi && walk(rv, depth+1) {
+					return true
+				}
+			}
+		}
+		return false
+	}
+	return walk(phi, 0)
 }
 
 // loopDepth: number of loop headers (other than b itself) whose natural loop contains b.
